@@ -52,6 +52,11 @@ Checks(r) ==
   ELSE IF ~(\A i \in 1..Len(r.ell.data) : IsFlt(r.ell.data[i])) \/ ~(\A i \in 1..Len(r.lp.data) : IsFlt(r.lp.data[i]))
        THEN << <<"finite", FALSE>> >>
   ELSE << <<"ell_is_logsumexp", EllOK(r)>>,
+          \* r.lp: the defining closed-form density at the stored parameters (encoder, NumPy / SciPy); r.lp_own: the model's
+          \* own log_pdf, the one its E-step uses.  EM is monotone only if both are the same function
+          <<"density_of_current_model", Len(r.lp_own.data) = Len(r.lp.data) /\ \A i \in 1..Len(r.lp.data) :
+                IsFlt(r.lp_own.data[i]) /\ Close(r.lp_own.data[i], r.lp.data[i],
+                                                 FAdd(FAdd(FAbs(r.lp.data[i]), FAbs(r.lp_own.data[i])), FOne), 256)>>,
           <<"monotone", (~r.first /\ prev # <<>> /\ prev[3] /\ GuardFree(r)) =>
                 FLe(FSub(prev[1], FMul(FNorm(SL, -19), FAdd(prev[2], LLOf(r)[2]))), FAdd(LLOf(r)[1], r.mslack))>>,
           \* fine-grained comparison: the saliency-weighted terms s_n ell_n in fixed point (units 2^-10, exact integer
